@@ -190,7 +190,7 @@ func runC08(c *Ctx) {
 	c.obWriters("Conn.closed", "set once the connection has been given up", "(*Conn).Close")
 	ruleSocketCloseOwner(c)
 	ruleLogoutOnceUnderLock(c)
-	ruleNoPartialLine(c) // a disconnect in the middle of a command line executes nothing: the fragment is never dispatched
+	ruleNoPartialLine(c)      // a disconnect in the middle of a command line executes nothing: the fragment is never dispatched
 	ruleDrainFailureCloses(c) // a timeout or connection error while the rest of a message or chunk is discarded is "given up": the connection is closed, the unread octets are not executed
 	// the serving goroutine receives once per recipient occurrence before it goes back to the socket: a channel that is
 	// not filled to capacity blocks it for good — no disconnect, QUIT or timeout is noticed, Close and Logout never run
